@@ -25,8 +25,8 @@ CFG = dict(
                  "10": "the call's reply / final envelope / pending messages had been delivered before the read failure, yet the call got the connection error"},
     rule="lock-step in synctest bubbles, real client vs scripted peer, two outstanding calls (kind pairs unary+stream, stream+stream, "
          "unary+unary; streams with Header and RecvMsg waiting), alphabet = the 18 envelope shapes of clientgen.go x {call 0, call 1, "
-         "unknown id} = 54 symbols. QUICK (9692 lock-step cases): ALL sequences of length 1 (54 x 3 kind pairs x stats on/off = 324) and ALL of "
-         "length 2 for EVERY kind pair (54^2 x 3 = 8748), + 500 seeded random sequences of length 3..6, + 120 (thorough 1500) 'then-new-calls' cases: a random sequence of 1..3 envelopes, THEN 1..2 calls (unary / stream) started afterwards, each answered by its own reply with a distinct token or left unanswered. THOROUGH (~68k cases, ~11 min): the "
+         "unknown id} = 54 symbols. QUICK (about 4400 lock-step cases): ALL sequences of length 1 (54 x 3 kind pairs x stats on/off = 324) and ALL of "
+         "length 2 (54^2 = 2916), each with ONE kind pair chosen by the sequence and the seed (thorough: EVERY kind pair, 8748), + 500 seeded random sequences of length 3..6, + 120 (thorough 1500) 'then-new-calls' cases: a random sequence of 1..3 envelopes, THEN 1..2 calls (unary / stream) started afterwards, each answered by its own reply with a distinct token or left unanswered. THOROUGH (~68k cases, ~11 min): the "
          "same, + ALL length-3 sequences addressed to the two calls (36^3 = 46656), each for ONE kind pair chosen by the sequence and the seed (three consecutive seeds give every sequence x every kind pair; all three in one run: 28 min), + 5000 length-4 "
          "sequences sampled by the seed, + 6000 random of length 3..6. Stats handler installed on every other case; one case in eight has the user action ClientConn.Close() at a seeded position (before any call, between envelopes, before / after the failure; a no-op of the model); caller metadata is a dimension of EVERY open of every lock-step scenario (clientrig.go mdKinds: none, ordinary, grpc-trace-id, grpc-timeout, Grpc-Status, key with a space / upper case / non-ASCII, empty key, value with NUL / control bytes, -bin, pseudo-header, 17 keys; opaque to the model: every open must behave as without it) plus a family of 90 cases: such an open, 0..2 envelopes addressed to its id (also to the id of an open that FAILED: the id it would have been given) that nobody reads, a probe call, Close, more calls, the read failure: no call may hang; TestC13Crash (30 rounds, thorough 120; free-running, GOMAXPROCS 16, no bubble): 100 / 400 unary calls (+ 16 streams in RecvMsg) outstanding on a fresh connection, every request on the wire, then the transport's Read fails: a crash of the process is a failing input attributed to the round, every call must return an error, later calls too; each case is closed "
          "by a read failure followed by RecvMsg / Trailer. The full <= 4 space of the property's quantifier (54^4 x 3 = 2.5e7 lock-step "
